@@ -354,6 +354,11 @@ def check_target(env, target, bname, budget, given=None):
     func, mod = env.locate(target)
     out = {"target": target, "behaviour": bname, "tried": 0, "satisfying": 0, "failures": []}
     cases = []
+    if getattr(contract, "abstract_calls", None) and given is None:
+        # the contract replaces calls of this function (files, the peer's modules) by model externals: a generated value for
+        # `conn` or a path is not an input the real function can be run on
+        out["skipped"] = "calls abstracted to model externals: no native inputs"
+        return out
     if given is not None:
         cases = [given]
     else:
@@ -452,6 +457,10 @@ def contract_native_build(contract, beh):
 
 
 def main():
+    import fcntl
+    # the functions under test are real code run on generated inputs: one that opens a small integer as a file closes this
+    # process's standard streams, so the results leave through a private descriptor far from anything an input names
+    out_fd = fcntl.fcntl(1, fcntl.F_DUPFD, 700)
     job = json.load(open(sys.argv[1]))
     env = Env(job)
     results = []
@@ -466,7 +475,8 @@ def main():
             results.append(check_target(env, target, bname, job.get("budget", 400), given))
         except Exception as e:
             results.append({"target": target, "behaviour": bname, "error": traceback.format_exc()[-1500:]})
-    json.dump(results, sys.stdout)
+    with os.fdopen(out_fd, "w") as f:
+        json.dump(results, f)
 
 
 if __name__ == "__main__":
